@@ -112,6 +112,8 @@ def job_offset_value():
                 res.merge(r)
     return res
 
+RULE_PANEL = [b"J1", b"J59", b"J60", b"J127", b"J128", b"J200", b"J255", b"J256", b"J365", b"0", b"1", b"59", b"127", b"128", b"200", b"255", b"256", b"365",
+              b"M1.1.0", b"M3.2.0", b"M12.5.6", b"M10.5.0/0", b"M3.5.0/-2", b"J300/25", b"100/167:59:59", b"J100/-167:59:59", b"M11.1.0/2:00:01"]
 def candidates(job_name, fobj, rep=None):
     """concrete byte strings for a failed unit obligation: the model's own bytes, or — when the model is over uninterpreted
     lower levels (units H3..H5) — the failures of the same unit run with every level real at a smaller length"""
@@ -165,6 +167,15 @@ def run(tier):
             for bs in cands:
                 c, w = embed_and_replay(bs)
                 if w: hit = (c, w); break
+            if not hit:
+                # the unit's counterexample may be one of several failing inputs (CBMC reports one per obligation): a panel of rule
+                # strings over every date form and the ends of each numeric range, as start and as end rule
+                for rs in RULE_PANEL:
+                    for spec in (b"AAA0BBB," + rs + b",J1", b"AAA0BBB,J1," + rs, b"<-03>3<-02>," + rs + b"/-1:02:03,M10.5.0"):
+                        c2 = {"bytes": list(spec) + [0]}
+                        w = replay(c2)
+                        if w: hit = (c2, w); break
+                    if hit: break
             if hit: rep.violation("str:" + bytes(hit[0]["bytes"]).split(b"\0")[0].decode("latin1"), hit[1] + "  [%s: %s]" % (r["name"], fobj["desc"]), hit[0])
             else: rep.spurious.append({"job": r["name"], "obligation": fobj["desc"], "bytes": cands[0]})
     rep.bounds = ["every NUL-terminated byte string of length <= %d (all 256 byte values)" % L, "loops unwound %d times with unwinding assertions" % max(L + 3, 13),
